@@ -242,10 +242,17 @@ impl<'a, T: FormatHandler + 'a> FormatContext<'a, T> {
             &self.report,
         );
 
+        // The text of the source map has `\n` only: `Auto` must look at how the first line of
+        // the input really ended.
+        let raw_input_text = if self.psess.first_newline_was_crlf(&path) {
+            "\r\n"
+        } else {
+            snippet_provider.entire_snippet()
+        };
         apply_newline_style(
             self.config.newline_style(),
             &mut visitor.buffer,
-            snippet_provider.entire_snippet(),
+            raw_input_text,
         );
 
         if visitor.macro_rewrite_failure {
